@@ -63,9 +63,15 @@ fn verif_c16_driver() {
         (join, socket)
     });
     let mut counter: u64 = 0;
+    // when the server does not even answer the sentinel of the first case (no loopback UDP in this
+    // environment), the remaining cases are not attempted: each would only wait for its timeouts
+    let mut dead = false;
     crate::verif_hook::drive(|t| {
         let req = crate::verif_hook::unhex(t[0]);
         counter += 1;
+        if dead {
+            return format!("{} -1 -1", req.len());
+        }
         let mut plain = vec![0u8; 48];
         plain[0] = 0x23;
         plain[40..48].copy_from_slice(&(0xfeed_0000_0000_0000u64 | counter).to_be_bytes());
@@ -95,6 +101,9 @@ fn verif_c16_driver() {
                 } else if !want_origin.is_empty() && head.windows(8).any(|w| w == &want_origin[..]) {
                     reply = length as i64;
                 }
+            }
+            if counter == 1 && sentinel < 0 {
+                dead = true;
             }
             format!("{} {} {}", req.len(), reply, sentinel)
         })
